@@ -7,6 +7,7 @@ pub mod c05;
 pub mod c14;
 pub mod c15;
 pub mod modelrun;
+pub mod selftest;
 pub mod c19;
 pub mod diskrun;
 
